@@ -64,9 +64,8 @@ for c in job.get("ll", []):
     thetas = [np.array(t, dtype=np.float64) for t in c["thetas"]]
     mus = [np.array(m, dtype=np.float64) for m in c["mus"]]
     data = arr(c["data"])
-    clusters = [types.SimpleNamespace(train_inverse=t, inverse_covariance=None, log_determinant=None, stacked_data_mean=m)
-                for t, m in zip(thetas, mus)]
-    model = types.SimpleNamespace(arguments=types.SimpleNamespace(num_clusters=K, window_size=c["W"]), clusters=clusters)
+    model = tu.real_model(thetas, mus, c["W"], int(data.shape[0]))
+    clusters = model.clusters
     try:
         table = likelihood.all_points_all_clusters_log_likelihood(model, data)
         lls.append({"table": [[float(v).hex() for v in row] for row in np.asarray(table)],
